@@ -363,6 +363,8 @@ def finding_matches(f: Dict[str, Any], stage: str, inp: Any, verdict: str) -> bo
     d = digest(inp)
     if f.get("match") == "verdict":      # identified by call site: the judge's clause name carries the mechanism
         return f.get("verdict") == verdict
+    if f.get("match") == "verdict_suffix":
+        return verdict.endswith(f.get("verdict_suffix", "\0"))
     if "input_digests" in f and d in f["input_digests"]:
         return True
     if "inputs" in f and any(cj(i) == cj(inp) for i in f["inputs"]):
